@@ -55,8 +55,11 @@ struct fseq {
 
 static constexpr fseq<0,-1,1> fall;
 
+// A single compile-time integer used as a slice. As for seq(int): the views add (dimension + 1) to a range whose
+// both ends are negative, so for F < -1 the range has to be [F-1,F) for the integer to count from the end like
+// scalar indexing does; F == -1 is [-1,0), handled by to_positive
 template<int F>
-static constexpr fseq<F,F+1,1> fix{};
+static constexpr fseq<(F < -1 ? F-1 : F),(F < -1 ? F : F+1),1> fix{};
 
 static constexpr fseq<0 ,1 ,1> ffirst;
 static constexpr fseq<-1,-1,1> flast;
